@@ -133,7 +133,10 @@ def merge(prop, tier, seed, mon, results, wall, partial=False):
         for b in getattr(mon, 'REQUIRED_BUCKETS', []):
             if buckets.get(b, 0) == 0:
                 inconclusive.append(f'coverage bucket never hit: {b}')
+        absent = set('anchor:' + x for x in (notes.get('anchors_absent') or []))
         for a in getattr(mon, 'REQUIRED_ANCHORS', []):
+            if a in absent:
+                continue        # the function does not exist in the tree under test (reported in the evidence notes)
             if anchors.get(a, 0) == 0:
                 inconclusive.append(f'deciding anchor/probe never reached: {a}')
         for o in getattr(mon, 'REQUIRED_ORACLES', []):
